@@ -12,6 +12,21 @@ CLAIMS = {
          "the real Plane agrees with a brute-force list model. Bounded model checking of the real code: holds for every value inside the bounds, nothing is claimed outside.",
          "4.C20"),
 }
+CLAIMS.update({
+ "C01": ("bounded symbolic execution (symx, symbolic bytes) of the real PDFStreamParser.nextobject() on the output of a reference writer",
+         "For every string/name content of N symbolic bytes (all 256 values), every spelling the writer can choose (escapes, octal forms, line continuations, balanced "
+         "parentheses, hex digit case/spacing, #xx), every number of the digit grammar, every listed structure with symbolic delimiters, and each listed read-buffer size, "
+         "the real parser returns the written value; the solver finds no value/spelling/buffer size where it does not, apart from the three known findings. Bounded (N=2 quick, 3 thorough).",
+         "4.C01"),
+ "C03": ("bounded symbolic execution (symx) of the real predictor / RunLength / LZW bit reader / ASCIIHex / PDFStream.decode / PDFParser stream code against reference encoders",
+         "For all sample bytes and all per-row PNG filter types within the listed geometries, all run partitions, all bit patterns, the real decoders invert the reference encoders; "
+         "filter chains up to the bound apply decoders in order with their own parameters (decoders stubbed); payload delimitation holds for symbolic payload bytes. Bounded; zlib/DCT/JBIG2 outside.",
+         "4.C03"),
+ "C14": ("bounded symbolic execution (symx, symbolic bytes) of the real PSBaseParser scanners and nexttoken() loop",
+         "From every scanner state (with seeded partial tokens), for ALL byte strings of N symbolic bytes (256 values each) followed by end of input, the tokenizer raises nothing "
+         "but PSEOF, yields positions that are monotone and inside the input, makes bounded progress, and gives the same token sequence for BUFSIZ 4096 and every smaller size. N=3 quick, 4 thorough.",
+         "4.C14"),
+})
 NA = {}
 def main():
     props = [json.loads(l) for l in open(os.path.join(ROOT, "properties.jsonl"))]
